@@ -78,6 +78,80 @@ func realCoord(xf, yf, ff float64, H, V int64) (lon, lat, alt float64) {
 
 func relArr(id, base ID) []int64 { return []int64{id.X - base.X, id.Y - base.Y, id.F - base.F} }
 
+// axisSegment: a segment of about n voxels parallel to a grid axis (1 east-west, 2 north-south,
+// 3 vertical) at zooms (H, V), with both ends well inside their voxels on the other two axes.
+func (r Rng) axisSegment(axis int, n int64, H, V int64) (lon0, lat0, alt0, lon1, lat1, alt1 float64) {
+	nh := int64(1) << uint(H)
+	x0 := float64(r.In(n+2, nh-n-3)) + 0.3 + 0.4*r.Float64()
+	y0 := float64(r.In(nh/8+n, nh-nh/8-n)) + 0.3 + 0.4*r.Float64()
+	f0 := float64(r.In(-50, 50)) + 0.3 + 0.4*r.Float64()
+	x1, y1, f1 := x0, y0, f0
+	d := float64(n) * float64(r.Pick(-1, 1))
+	switch axis {
+	case 1:
+		x1 += d
+	case 2:
+		y1 += d
+	default:
+		f1 += d
+	}
+	lon0, lat0, alt0 = realCoord(x0, y0, f0, H, V)
+	lon1, lat1, alt1 = realCoord(x1, y1, f1, H, V)
+	switch axis { // exactly parallel: the other two coordinates bit-identical
+	case 1:
+		lat1, alt1 = lat0, alt0
+	case 2:
+		lon1, alt1 = lon0, alt0
+	default:
+		lon1, lat1 = lon0, lat0
+	}
+	return
+}
+
+// evLineAxis: a long axis-parallel segment; recorded relative to the start voxel.
+func evLineAxis(t *Tracer, axis int, lon0, lat0, alt0, lon1, lat1, alt1 float64, H, V int64) {
+	p0, err0 := object.NewPoint(lon0, lat0, alt0)
+	p1, err1 := object.NewPoint(lon1, lat1, alt1)
+	if err0 != nil || err1 != nil {
+		return
+	}
+	ends, err := shape.GetExtendedSpatialIdsOnPoints([]*object.Point{p0, p1}, H, V)
+	if err != nil || len(ends) != 2 {
+		return
+	}
+	sv, ok0 := ParseExt(ends[0])
+	ev, ok1 := ParseExt(ends[1])
+	if !ok0 || !ok1 {
+		return
+	}
+	d := relArr(ev, sv)
+	for i := 0; i < 3; i++ {
+		if i != axis-1 && d[i] != 0 {
+			return // (a stored latitude cut into the next row: not an axis-parallel case after all)
+		}
+	}
+	o, res := guard(func() (any, error) { return shape.GetExtendedSpatialIdsOnLine(p0, p1, H, V) })
+	e := absW.ev("LineAxis", map[string]any{"axis": axis, "n": d[axis-1],
+		"p0": hexTriple(lon0, lat0, alt0), "p1": hexTriple(lon1, lat1, alt1), "H": H, "V": V})
+	e.O = o
+	e.Real = map[string]any{"start": ends[0], "end": ends[1]}
+	out := []any{}
+	if o == "ok" {
+		for _, s := range strs(res) {
+			id, ok := ParseExt(s)
+			if !ok || id.H != H || id.V != V {
+				e.Bad = "malformed or wrong zoom: " + s
+				continue
+			}
+			out = append(out, relArr(id, sv))
+		}
+	} else {
+		e.Bad = "outcome " + o
+	}
+	e.R = out
+	t.Emit(e, true)
+}
+
 func evLine(t *Tracer, lon0, lat0, alt0, lon1, lat1, alt1 float64, H, V int64, sp bool) {
 	p0, err0 := object.NewPoint(lon0, lat0, alt0)
 	p1, err1 := object.NewPoint(lon1, lat1, alt1)
@@ -91,6 +165,12 @@ func evLine(t *Tracer, lon0, lat0, alt0, lon1, lat1, alt1 float64, H, V int64, s
 	sv, ok0 := ParseExt(ends[0])
 	ev, ok1 := ParseExt(ends[1])
 	if !ok0 || !ok1 {
+		// the voxels of the end points are not well-formed IDs: nothing the specification accepts
+		e := absW.ev("Line", map[string]any{"end": []int64{0, 0, 0}, "moves": []any{}, "retr": []any{},
+			"p0": hexTriple(lon0, lat0, alt0), "p1": hexTriple(lon1, lat1, alt1), "H": H, "V": V})
+		e.O, e.R = "ok", []any{}
+		e.Bad = "malformed end voxel: " + ends[0] + " " + ends[1]
+		t.Emit(e, true)
 		return
 	}
 	if abs64(ev.X-sv.X)+abs64(ev.Y-sv.Y)+abs64(ev.F-sv.F) > 160 {
@@ -248,7 +328,21 @@ var knownLineCases = [][8]uint64{
 	{0x40548c64cf9b9b90, 0x4055181aa4e372be, 0xc159a4fdc6602b20, 0x40548c64cf9b9b90, 0x4055181aa4dbe2de, 0xc159a4fdc6602b20, 35, 1},
 }
 
+func driveLongLines(t *Tracer, r Rng, k int) {
+	for i := 0; i < k; i++ {
+		// lengths around the powers of two where an implementation might switch strategy, and beyond
+		n := r.Pick(1023, 1024, 1025, 2047, 2048, 2049, 4095, 4096, 4097, 8191, 8192, 8193, r.In(1000, 12000), r.In(4097, 9000))
+		axis := 1 + r.Intn(3)
+		H, V := r.In(20, 28), r.In(20, 28)
+		lon0, lat0, alt0, lon1, lat1, alt1 := r.axisSegment(axis, n, H, V)
+		evLineAxis(t, axis, lon0, lat0, alt0, lon1, lat1, alt1, H, V)
+	}
+}
+
 func driveLine(t *Tracer, r Rng, n int) {
+	if n >= 100 {
+		driveLongLines(t, r, n/300)
+	}
 	fb := math.Float64frombits
 	for _, c := range knownLineCases {
 		evLine(t, fb(c[0]), fb(c[1]), fb(c[2]), fb(c[3]), fb(c[4]), fb(c[5]), int64(c[6]), int64(c[7]), false)
